@@ -21,6 +21,7 @@
 #define __CPROVER_decreases(...)
 #define __CPROVER_assert(c, m) ((void)0)
 #define __CPROVER_assume(c) ((void)0)
+#define __CPROVER_havoc_object(p) ((void)0)
 extern void cm_native_error(const char *file, int line);
 #define CM_ERROR() cm_native_error(__FILE__, __LINE__)
 #define CM_PROMOTED_ASSERT(c) ((void)0)
